@@ -270,10 +270,11 @@ static void enum_aligns(double scale) {
         }
   }
 }
-// bit length crossing 2^32 (512 MiB + 3 bytes fed as 1 MiB updates): thorough only, fast algorithms only
+// bit length crossing 2^32 (512 MiB + 3 bytes fed as 1 MiB updates): fast algorithms only
 static void enum_long(double scale) {
-  if (scale < 3.0 || sh_info(SH_INFO_SMALL_TABLES) || sh_info(SH_INFO_ASAN)) return;
-  const int algsL[] = {SH_MD5, SH_SHA1, SH_SHA256, SH_SHA512};
+  if (sh_info(SH_INFO_SMALL_TABLES) || sh_info(SH_INFO_ASAN)) return;
+  // quick tier: the two fastest algorithms only (about 1 s each incl. the reference); thorough: all four
+  const std::vector<int> algsL = (scale < 3.0) ? std::vector<int>{SH_MD5, SH_SHA1} : std::vector<int>{SH_MD5, SH_SHA1, SH_SHA256, SH_SHA512};
   for (int alg : algsL) {
     HCase c;
     c.alg = alg; c.entry = SH_EP_STREAM; c.impl = SH_IMPL_DEFAULT; c.kind = K_COUNTER; c.seed = 3;
